@@ -609,7 +609,7 @@ def _select(ctx, progs, forced=()):
         names.sort(key=lambda n: progs[n]["entry"]["prio"])
         # adaptive budget: on a loaded machine (stage 1 already slow) fewer groups
         el = time.time() - ctx.t0 if hasattr(ctx, "t0") else 0
-        ng, nh = (8, 3) if el < 65 else (6, 2) if el < 130 else (4, 1)
+        ng, nh = (7, 3) if el < 45 else (6, 2) if el < 130 else (4, 1)
         hand_keys = hand_keys[:max(nh, len([k for k in hand_keys if k in forced_by]))]
         for k, n in enumerate(names[:ng]):
             lv = [l for (m, l) in keys if m == n]
